@@ -70,29 +70,33 @@ impl FromStr for ModificationSpecificity {
         if s.len() > 2 {
             return Err(InvalidModification::TooLong(s.into()));
         }
+        // terminal specificity, optionally followed by exactly one valid residue
+        fn residue(rest: &str) -> Result<Option<u8>, InvalidModification> {
+            match rest.chars().next() {
+                None => Ok(None),
+                Some(c) if c.is_ascii() && VALID_AA.contains(&(c as u8)) => Ok(Some(c as u8)),
+                Some(c) => Err(InvalidModification::InvalidResidue(c)),
+            }
+        }
         if let Some(rest) = s.strip_prefix('^') {
-            return Ok(ModificationSpecificity::PeptideN(
-                rest.chars().next().map(|ch| ch as u8),
-            ));
+            return Ok(ModificationSpecificity::PeptideN(residue(rest)?));
         }
         if let Some(rest) = s.strip_prefix('$') {
-            return Ok(ModificationSpecificity::PeptideC(
-                rest.chars().next().map(|ch| ch as u8),
-            ));
+            return Ok(ModificationSpecificity::PeptideC(residue(rest)?));
         }
         if let Some(rest) = s.strip_prefix('[') {
-            return Ok(ModificationSpecificity::ProteinN(
-                rest.chars().next().map(|ch| ch as u8),
-            ));
+            return Ok(ModificationSpecificity::ProteinN(residue(rest)?));
         }
         if let Some(rest) = s.strip_prefix(']') {
-            return Ok(ModificationSpecificity::ProteinC(
-                rest.chars().next().map(|ch| ch as u8),
-            ));
+            return Ok(ModificationSpecificity::ProteinC(residue(rest)?));
+        }
+        // a bare residue is a single letter
+        if s.chars().count() > 1 {
+            return Err(InvalidModification::TooLong(s.into()));
         }
         match s.chars().next() {
             Some(c) => {
-                if VALID_AA.contains(&(c as u8)) {
+                if c.is_ascii() && VALID_AA.contains(&(c as u8)) {
                     Ok(ModificationSpecificity::Residue(c as u8))
                 } else {
                     Err(InvalidModification::InvalidResidue(c))
